@@ -6,6 +6,7 @@
   internal/kvstore on every run.
 -/
 import OlricModel.Proofs.KVXfer
+import OlricModel.Proofs.KVTerm
 import OlricModel.Generated.Facts
 namespace Olric.C11
 open Olric KV
@@ -289,6 +290,34 @@ theorem C11_transfer (src src' dst : KV) (t : Table) (ws : src.WF) (wd : dst.WF)
     have := (hslots s hs).2
     rw [e, hn] at this; cases this
 
+/-- **C11 (compaction completes).**  From every reachable store (any table size > 0), calling
+    `Compaction` again and again — whatever order Go's map iteration hands to each call (`ord`, any
+    enumeration of the drained table's keys without repetition) and whatever the clock reads — answers
+    `done` within `2·(stored records) + (retired tables) + 3` calls; the store it leaves has the same
+    contents, keeps the invariant, and has no garbage-heavy table behind the head.  The bound comes from
+    the measure `KV.mu` (Proofs/KVTerm.lean), which every not-done call strictly lowers
+    (`KV.compaction_mu`): every record moved leaves a table that carries garbage for the head, and
+    when the head fills up the tables that replace it carry none. -/
+theorem C11_compaction_terminates (ord : KV → List Nat) (now : Nat → Int)
+    (hord : ∀ k : KV, k.WF → KV.ValidOrder k (ord k)) (k : KV) (w : k.WF) (hts : 0 < k.tableSize) :
+    let n := 2 * k.stats.length + k.old.length + 3
+    (KV.compactLoop ord now n k).2 = true ∧ (KV.compactLoop ord now n k).1.WF ∧
+    (∀ h, (KV.compactLoop ord now n k).1.absV h = k.absV h) ∧
+    (∀ t ∈ (KV.compactLoop ord now n k).1.old, needsCompaction t = false) := by
+  intro n
+  have hb := KV.mu_le k
+  obtain ⟨a, b, _, d, e⟩ := KV.compactLoop_terminates ord now hord n k w hts (by omega)
+  exact ⟨a, b, d, e⟩
+
+/-- one call that is not the last one makes progress on the measure -/
+theorem C11_compaction_progress (k : KV) (w : k.WF) (hts : 0 < k.tableSize) (now : Int) (order : List Nat)
+    (hv : KV.ValidOrder k order) (hnd : (k.compaction now order).2 = false) :
+    KV.mu (k.compaction now order).1 < KV.mu k := by
+  have := KV.compaction_mu k w hts now order hv hnd; omega
+
+/-- the hypothesis on `ord` is met by the table's own key list (what `Range` enumerates) -/
+theorem C11_range_order_valid (k : KV) (w : k.WF) : KV.ValidOrder k (KV.rangeOrder k) := KV.rangeOrder_valid k w
+
 /-- **Tie to the source (regenerated on every run).**  The constants and code shapes the model encodes
     are the ones the extractor finds in internal/kvstore today: record overhead 29, key limit 256,
     garbage ratio 2/5, Put/PutRaw delete the superseded slot, Compaction skips the read-write table,
@@ -326,5 +355,17 @@ set_option maxRecDepth 100000 in
 example : ((run (KV.fork 256 1000) demoOps).1.tables.length = 2) := by decide
 set_option maxRecDepth 100000 in
 example : (run (KV.fork 256 1000) demoOps).2.getLast? = some (.val (some recA.core)) := by decide
+
+/-- a store with a garbage-heavy retired table: three inserts spill into a second table, then two
+    overwrites turn most of the first table into garbage.  The loop needs two calls (one drains the
+    table, the second answers done) and keeps the contents. -/
+def dirtyOps : List Op :=
+  [.put 1 recB 10, .put 2 recA 11, .put 3 recB 12, .put 1 recA 13]
+set_option maxRecDepth 100000 in
+example : KV.mu (run (KV.fork 256 1000) dirtyOps).1 = 2 := by decide
+set_option maxRecDepth 100000 in
+example : (KV.compactLoop KV.rangeOrder (fun _ => 20) 1 (run (KV.fork 256 1000) dirtyOps).1).2 = false := by decide
+set_option maxRecDepth 100000 in
+example : (KV.compactLoop KV.rangeOrder (fun _ => 20) 2 (run (KV.fork 256 1000) dirtyOps).1).2 = true := by decide
 
 end Olric.C11
